@@ -144,3 +144,23 @@ Theorem C06_redis_merge_is_union : forall (hic : N -> bytes -> N * N) m al s0 xs
   exists s', rhll_merge s a b = (Ok tt, s') /\ hrefines s' a u /\ hrefines s' b mb.
 Proof. exact RedisHLLHistory.redis_merge_is_union. Qed.
 Print Assumptions C06_redis_merge_is_union.
+
+(* non-vacuity of the end-to-end theorem: two Redis sketches in one store representing the sketches
+   of two one-element streams that hit different registers; the union holds both *)
+From GX.Proofs Require Import NonVacuity.
+From Coq Require Import Lia.
+Example C06_redis_union_premises_hold :
+  let hic := fun (_ : N) (x : bytes) => (1 + N.of_nat (length x), 3) in
+  exists s0 ma mb u s a b,
+    hll_new 4 0 = Ok s0 /\ HLLApi.upd_all hic s0 [[7]] = Ok ma /\ HLLApi.upd_all hic s0 [[8; 9]] = Ok mb /\
+    HLLApi.upd_all hic s0 ([[7]] ++ [[8; 9]]) = Ok u /\
+    hrefines s a ma /\ hrefines s b mb /\ rh_key a <> rh_key b /\ h_regs u = [0; 0; 3; 3].
+Proof.
+  cbv zeta.
+  eexists _, _, _, _, [(k_a, VList (map dec [0; 0; 3; 0])); (k_b, VList (map dec [0; 0; 0; 3]))],
+          (mkRhll 4 2 0 k_a k_m), (mkRhll 4 2 0 k_b k_n).
+  split; [reflexivity|]. split; [vm_compute; reflexivity|]. split; [vm_compute; reflexivity|]. split; [vm_compute; reflexivity|].
+  split; [|split; [|split; [vm_compute; discriminate|reflexivity]]].
+  - split; [reflexivity|]. split; [reflexivity|]. split; [|reflexivity]. split; [reflexivity|]. repeat constructor.
+  - split; [reflexivity|]. split; [reflexivity|]. split; [|reflexivity]. split; [reflexivity|]. repeat constructor.
+Qed.
